@@ -6,6 +6,8 @@
    ThreadKey::get returns a key iff none is alive on that thread; inside a running scoped call the key
    is never obtainable; after every call the key is obtainable exactly when it is neither alive nor leaked. *)
 From HL Require Import Base Model Shape Algo Api Check Monitors Pf_C06.
+From HL Require Import Conc Wp WpApi.
+From HL Require WpMain.
 
 Theorem C06_one_key : forall sc, mon_C06 sc (model_obs sc) = true.
 Proof. exact C06_main. Qed.
@@ -38,5 +40,21 @@ Example C06_example :
   [RB true; RB false; RPanicked; ROk; ROk; RB false; RB true; ROk; RB true; RPanicked; RB true].
 Proof. vm_compute. reflexivity. Qed.
 
+(* interleaved model, every schedule: at every call boundary, a key that is in use (in the thread's hand or inside its live
+   guard) keeps the thread-local flag set — ThreadKey::get() on that thread fails, so a second live key cannot come into
+   existence however the threads interleave *)
+Theorem C06_every_schedule_key_in_use_flag_set :
+  forall b sched t o k out, WpMain.wfB b = true ->
+  let sc := bs_sc b in
+  let s := fst (run_sched_g false false true (bs_wp b) (sc_env sc) (sc_nlocks sc) (binit b) sched) in
+  let th := get_thr (b_thr s) t in
+  th_over th = false -> th_cur th = Some (o, Op bpause_op k) -> k (VBool false) = term_of out ->
+  (match out with ODone _ | OPanic => True | _ => False end) ->
+  let lc' := fst (api_fin (sc_env sc) (th_loc th) o out) in
+  haskey lc' = true \/ guard lc' <> None ->
+  w_keyf (b_w s) t = true.
+Proof. exact WpMain.every_schedule_key_in_use_flag_set. Qed.
+
 Print Assumptions C06_one_key.
 Print Assumptions C06_call_effect.
+Print Assumptions C06_every_schedule_key_in_use_flag_set.
